@@ -56,29 +56,44 @@ CLAIMS = {
     "C13": dict(
         engine="E1 bdiff",
         technique="Coq proof over panic-aware models (Display, max_size) + differential including panics as observations",
-        text="Theorem C13a: for all histories whose data end below usize::MAX, the panic-aware models of Display and max_size return "
+        text="Theorems C13a / C13a_requests: for all histories whose requested sizes and alignments add up to at most usize::MAX "
+             "(hbound h <= MAXU; Proofs/Bound.v proves every datum then ends below usize::MAX, whatever mix of strategies), the panic-aware models of Display and max_size return "
              "(address order including zero-size data is what Display needs); refutation witnesses for both pre-fix panics are kept. "
              "PARTIAL: generation/compilation (part b) is rustc's; the generator's binding decisions are covered by the generator engines "
              "when registered. E1 records every panic of a request, of build(), max_size(), max_type_align() and to_string() as an observation.",
-        note=BASE_NOTE + "fits_usize is a hypothesis (the history bound lemma is future work).",
+        note=BASE_NOTE + "Part (a) full; part (b) (rustc accepts the module) partial: by execution (E3, E5).",
         ref="DESIGN.md section 4 C13"),
+    "C17": dict(
+        engine="E6 tyname",
+        technique="Coq proof (structural induction over the type grammar; reader/printer round trip) + differential against truc_type_name + rustc identity probe",
+        text="Theorems (coq/Props/C17.v) over the full grammar of the property at ANY nesting depth: C17_denotes (the rewritten tree of the compiler's name resolves, "
+             "where generated code is compiled, to the very type), C17_name_denotes (the printed TOKENS, read back by a reference reader of Rust's type syntax - `(T)` vs `(T,)` "
+             "included - denote the type), C17_names_distinct (recorded names are injective, so table keys never collide), C17_spellings (short and fully qualified spellings "
+             "get one key), C17_whitespace, C17_lookup (a registered type is found under both spellings however spaced). Tied to /repo by E6: the extracted model prints the "
+             "recorded name of every generated type and must equal truc_type_name (HostTypeResolver), rustc decides `fn(T) -> <recorded name>` for each, and a real "
+             "StaticTypeResolver is queried under 4 spellings per type.",
+        note=BASE_NOTE + "That rustc's and syn's parsers agree with the reference reader, and std::any::type_name's output format, are trusted and exercised (E6), not proved.",
+        ref="DESIGN.md section 4 C17"),
     "C18": dict(
         engine="E1 bdiff",
         technique="Coq proof (erasure commutes with every strategy and request) + differential under a synthetic resolver",
         text="Theorem C18_congr: histories equal up to type names and uninit flags give equal responses, lists, offsets. The implementation "
              "is tied to that function by E1 running under a synthetic resolver whose sizes/alignments never coincide with the host's "
              "(marker types of host size 0), through all four entry points (typed, dynamic, override, copy) and with an oracle that replays "
-             "every history through rotated entry points. The type-table half (lookup, JSON round trip) is not covered yet.",
-        note=BASE_NOTE + "PARTIAL: StaticTypeResolver / JSON not modelled yet.",
+             "every history through rotated entry points. Type tables: C18_table_registered / _frame / _no_overwrite on the association-list model of "
+             "StaticTypeResolver keyed by recorded names (coq/Model/TypeName.v); E6 registers thousands of grammar-generated types in a real table and compares "
+             "typed and dynamic lookups with size_of / align_of, the standard table with the host, and every answer before and after a JSON round trip.",
+        note=BASE_NOTE + "The JSON text form is serde_json's: its round trip is decided by execution only (E6).",
         ref="DESIGN.md section 4 C18"),
     "C20": dict(
         engine="E1 bdiff",
-        technique="Coq model of the helper + differential on every final definition into 6 target builders + isomorphism oracle; theorem partial",
-        text="The conversion helper is modelled over Builder.step (Convert in coq/Model/Builder.v). Proved: C20_partial (shape of the returned "
-             "map). The full isomorphism statement is written in coq/Props/C20.v and is NOT yet proved; it is decided per run by E1 "
-             "(model = implementation for the replay of every built definition into 4 native and 2 generic builders) plus the C20 oracle on the "
-             "implementation's result (one target variant per source variant, identity map, injective datum correspondence, equal names/type info).",
-        note=BASE_NOTE + "PARTIAL theorem; the deciding part is the differential + oracle.",
+        technique="Coq proof (loop invariant over the helper's three loops; source invariant: identifiers never reused) + differential on every final definition into 6 target builders + isomorphism oracle",
+        text="Theorem C20 (coq/Props/C20.v, Proofs/Replay.v): for EVERY definition built by a history of valid requests and every native target strategy, the helper "
+             "(modelled over Builder.step with the callbacks all callers use) succeeds on a fresh builder - no request refused, no map lookup panics - returns the identity "
+             "variant map, one injective datum map, and a target whose k-th variant is the image of the k-th source variant with equal name, type, size, alignment and "
+             "uninit flag. C20_source: built definitions never reuse identifiers and consecutive variants differ. For the two generic targets only the map's shape is "
+             "proved (C20_partial). E1 replays every built definition into 4 native and 2 generic builders, model against implementation, plus the C20 oracle.",
+        note=BASE_NOTE + "Full for native targets; generic targets by differential + oracle.",
         ref="DESIGN.md section 4 C20"),
     "C08": dict(
         engine="E4 vecdrv",
@@ -240,6 +255,9 @@ def main():
             {"name": "E5 probe", "path": "harness/src/bin/mkprobe.rs + vlib/e5.py",
              "serves_properties": ["C11", "C13", "C14"],
              "kind_free_text": "one rustc target per probe: accept / reject of generated modules"},
+            {"name": "E6 tyname", "path": "vlib/e6.py + coq/Model/{TypeName,TypeParse}.v + coq/extract (tyname mode) + harness/src/vt.rs",
+             "serves_properties": ["C17", "C18"],
+             "kind_free_text": "grammar-generated Rust types: recorded names against the extracted model, table lookups under several spellings, JSON round trip, rustc identity probe"},
             {"name": "T1/T2 srcscan", "path": "vlib/srcscan.py -> coq/Current/Runtime.v",
              "serves_properties": ["C04", "C05", "C06", "C07", "C08", "C09", "C10", "C11", "C19"],
              "kind_free_text": "translator of token-level source facts into model parameters, regenerated on every run"},
